@@ -149,6 +149,23 @@ def run_cases(ck: Check, n_refine: int, n_storage: int):
                     expect.append(({**case, "completion_order": order}, "ok " + " ".join(str(i) for i in range(len(cands)))))
                 if len(ck.samples) < 3:
                     ck.sample({"kind": "refine", "num_processes": procs, "delays": kind, "completion_order": order, "worker_pids": len(pids)})
+            # the SAME field object analysed again after its data was updated in place (an evolving simulation state): workers must see the
+            # new image, whatever was analysed through a pool before
+            if k % 3 == 0:
+                import copy
+
+                field2 = copy.deepcopy(field)
+                first = ia.locate_droplets(field2, refine=True, minimal_radius=minr, num_processes=2, **extra)
+                shifted = [DiffuseDroplet(d_.position + np.array([0.7, -0.4]), d_.radius * 0.9, d_.interface_width) for d_ in drops]
+                field2.data = Emulsion(shifted).get_phasefield(grid).data
+                ser2 = ia.locate_droplets(field2, refine=True, minimal_radius=minr, num_processes=1, **extra)
+                par2 = ia.locate_droplets(field2, refine=True, minimal_radius=minr, num_processes=2, **extra)
+                ck.count("same_field_object_updated_in_place")
+                ck.case(("refine-updated", k, field2.data.tobytes()))
+                if em_key(par2) != em_key(ser2):
+                    ck.fail("after the data of the same field object was updated in place, num_processes=2 differs from the serial analysis "
+                            f"({len(par2)} vs {len(ser2)} droplets; first analysis found {len(first)})", {"check": "refine_par_eq_ser", "num_processes": "2", "history": "in-place update"},
+                            {**case, "history": "analyse with num_processes=2, update field.data in place, analyse again"})
             # nothing to refine (an image without droplets, an empty candidate list): every worker setting returns the empty result
             if k < 3:
                 empty_field = ScalarField(grid, 0.0)
